@@ -405,3 +405,30 @@ Print Assumptions c20_partial_reports_nonvacuous.
 Print Assumptions c20_partial_field_present.
 Print Assumptions c20_partial_lines_present.
 Print Assumptions c20_partial_present_nonvacuous.
+
+(* ================================================================== src/parser.rs itself (translated from the source) *)
+(** The three public head parsers are translated on every run by tools/rs2coq2.py (theories/Gen2.v: [gen_try_parse_response],
+    [gen_try_parse_partial_response], [gen_try_parse_request]; httparse's outcome and the fields it filled in are values -- httparse
+    itself stays modelled --, the http builder is the model's reading of it) and proved EQUAL to the model's bridge functions on
+    whatever the parser model returns (proofs/Gen2_equiv_parser.v): the error mapping, Complete / Partial, the version / status /
+    method conversions, which fields are copied and where the copy stops, what is returned. *)
+From Hoot Require Import GenLib Gen2.
+From Hoot.proofs Require Import Gen2_equiv_parser.
+Theorem c20_code_try_parse_response : forall slots input,
+  gen_try_parse_response (hp_of (fst (parse_response slots input))) (hv_version (snd (parse_response slots input)))
+    (hv_code (snd (parse_response slots input))) (hv_headers (snd (parse_response slots input)))
+  = try_parse_response slots input.
+Proof. exact gen_try_parse_response_eq. Qed.
+Print Assumptions c20_code_try_parse_response.
+Theorem c20_code_try_parse_partial_response : forall slots input,
+  gen_try_parse_partial_response (hp_of (fst (parse_response slots input))) (hv_version (snd (parse_response slots input)))
+    (hv_code (snd (parse_response slots input))) (hv_headers (snd (parse_response slots input)))
+  = try_parse_partial_response slots input.
+Proof. exact gen_try_parse_partial_response_eq. Qed.
+Print Assumptions c20_code_try_parse_partial_response.
+Theorem c20_code_try_parse_request : forall slots input,
+  gen_try_parse_request (hp_of (fst (parse_request slots input))) (hq_version (snd (parse_request slots input)))
+    (hq_method (snd (parse_request slots input))) (hq_headers (snd (parse_request slots input)))
+  = try_parse_request slots input.
+Proof. exact gen_try_parse_request_eq. Qed.
+Print Assumptions c20_code_try_parse_request.
